@@ -59,9 +59,20 @@ class GenericSDE(nn.Module):
             self.gW1, self.gb1, self.gc1 = P(d, hdim, scale=0.8), P(hdim, scale=0.3), P(hdim, scale=0.8)
             self.gW2, self.gb2 = P(hdim, d * m, scale=0.7), P(d * m, scale=0.4)
         self.unused = P(2, scale=1.0)            # a parameter the SDE never uses
+        # optional per-sample conditioning: batch member b has its own drift/diffusion scale (the SDE still acts row-wise;
+        # "additive" only means constant with respect to y, not identical across the batch)
+        self.rowdep = bool(spec.get("rowdep", False))
+        self.register_buffer("rowscale", 1.0 + 0.6 * (torch.rand(16, generator=gen, dtype=dtype) - 0.5))
+
+    def _row(self, y, ndim):
+        if not self.rowdep:
+            return 1.0
+        r = self.rowscale[torch.arange(y.size(0)) % 16]
+        return r.reshape((-1,) + (1,) * (ndim - 1))
 
     def f(self, t, y):
-        return self.fscale * (torch.tanh(y @ self.fW1 + self.fb1 + self.tdep * t * self.fc1) @ self.fW2 + self.fb2)
+        return self._row(y, 2) * self.fscale * (torch.tanh(y @ self.fW1 + self.fb1 + self.tdep * t * self.fc1) @ self.fW2
+                                                + self.fb2)
 
     def h(self, t, y):
         return torch.tanh(y @ self.hW + self.hb) * 0.7
@@ -69,12 +80,13 @@ class GenericSDE(nn.Module):
     def g(self, t, y):
         nt = self.noise_type
         if nt == "diagonal":
-            return self.gscale * (self.ga + self.gb * torch.tanh(self.gc * y + self.tdep * t * self.ge))
+            return self._row(y, 2) * self.gscale * (self.ga + self.gb * torch.tanh(self.gc * y + self.tdep * t * self.ge))
         if nt == "additive":
             G = self.gscale * (self.G0 + torch.sin(self.tdep * t + 0.3) * self.G1)
-            return G.unsqueeze(0).expand(y.size(0), -1, -1)
+            G = G.unsqueeze(0).expand(y.size(0), -1, -1)
+            return G * self._row(y, 3) if self.rowdep else G
         z = torch.tanh(y @ self.gW1 + self.gb1 + self.tdep * t * self.gc1) @ self.gW2 + self.gb2
-        return self.gscale * z.reshape(y.size(0), self.spec["d"], self.spec["m"])
+        return self._row(y, 3) * self.gscale * z.reshape(y.size(0), self.spec["d"], self.spec["m"])
 
 
 def build_generic(spec):
